@@ -3,6 +3,7 @@ package props
 import (
 	"fmt"
 	"sort"
+	"sync"
 
 	"github.com/ipld/go-ipld-prime/datamodel"
 
@@ -67,7 +68,9 @@ func c11MapSub() *engine.Sub {
 	return &engine.Sub{
 		Name: "equality-of-maps-in-any-order",
 		Rule: "== between a literal map and a data map of n entries h1 .. hn (n = 0 .. 300, on both sides of 10, 32, 64, 128: the bytewise and the length-first order differ from h10 on), each listed in insertion, reverse, bytewise, length-first order or decoded from DAG-CBOR (25 order pairs): true when the entries are the same, false when one value differs; bare, negated, nested in an outer map literal, under any; non-trivial = all",
-		Bound: func(string) string { return fmt.Sprintf("%d sizes x 5 x 5 orders x 4 shapes x {same, one value changed}", len(sizes)) },
+		Bound: func(string) string {
+			return fmt.Sprintf("%d sizes x 5 x 5 orders x 4 shapes x {same, one value changed}", len(sizes))
+		},
 		Gen: func(tier string, emit func(any) bool) {
 			for _, n := range sizes {
 				for lo := range c11MapOrders {
@@ -125,6 +128,87 @@ func c11MapSub() *engine.Sub {
 				if got != want || gotP != want {
 					ctx.Failf(cs, "atom-truth/==/map-vs-map-in-another-order", "a map literal of %d entries listed in %s order against a data map listed in %s order (%s; shape %d): Match %v, PartialMatch %v, expected %v", cs.N, c11MapOrders[cs.LitOrder], c11MapOrders[cs.DatOrder], map[bool]string{false: "same entries", true: "one value changed"}[changed], cs.Shape, got, gotP, want)
 				}
+			}
+		},
+	}
+}
+
+// ---- lists with more than 2^20 elements ----
+
+type c11HugeCase struct {
+	Stmt int `json:"stmt"`
+	N    int `json:"n"`
+}
+
+func (c *c11HugeCase) Weight() int { return c.Stmt }
+
+var c11HugeLists sync.Map // n -> datamodel.Node {l: [0, 1, ..., n-1]}
+
+func c11HugeData(n int) datamodel.Node {
+	if v, ok := c11HugeLists.Load(n); ok {
+		return v.(datamodel.Node)
+	}
+	items := make([]datamodel.Node, n)
+	for i := range items {
+		items[i] = nInt(int64(i))
+	}
+	d := nMap(kv{"l", nList(items...)})
+	c11HugeLists.Store(n, d)
+	return d
+}
+
+func c11HugeSub() *engine.Sub {
+	type st struct {
+		name string
+		cons policy.Constructor
+		want bool
+	}
+	stmts := []st{
+		{"== .l[1:][0] 1", policy.Equal(".l[1:][0]", nInt(1)), true},
+		{"not(== .l[1:][0] 1)", policy.Not(policy.Equal(".l[1:][0]", nInt(1))), false},
+		{"all .l[1:] (> . 0)", policy.All(".l[1:]", policy.GreaterThan(".", nInt(0))), true},
+		{"all .l[0:] (> . 0)", policy.All(".l[0:]", policy.GreaterThan(".", nInt(0))), false},
+		{"any .l[2:] (== . 1)", policy.Any(".l[2:]", policy.Equal(".", nInt(1))), false},
+		{"any .l[:-1]? (== . 5)", policy.Any(".l[:-1]?", policy.Equal(".", nInt(5))), true},
+		{"== .l[-2:][1] last", nil, true},
+	}
+	return &engine.Sub{
+		Name:   "slices-of-more-than-a-million-elements",
+		Serial: true,
+		Rule:   "statements over slices of a list of n = 2^20-1, 2^20+2 (thorough also 2^21+1) integers 0 .. n-1 - the second element of a tail, all / any over tails and heads, a negative bound: the classical truth value, whatever the number of elements a segment has to collect; non-trivial = all",
+		Bound:  func(t string) string { return fmt.Sprintf("%d statements x %d list sizes", len(stmts), tierN(t, 2, 3)) },
+		Gen: func(tier string, emit func(any) bool) {
+			sizes := []int{1<<20 - 1, 1<<20 + 2}
+			if tier == "thorough" {
+				sizes = append(sizes, 1<<21+1)
+			}
+			for _, n := range sizes {
+				for s := range stmts {
+					if !emit(&c11HugeCase{s, n}) {
+						return
+					}
+				}
+			}
+		},
+		NewCase: func() any { return &c11HugeCase{} },
+		Run: func(ctx *engine.Ctx, c any) {
+			cs := c.(*c11HugeCase)
+			s := stmts[cs.Stmt]
+			cons := s.cons
+			if cons == nil {
+				cons = policy.Equal(".l[-2:][1]", nInt(int64(cs.N-1)))
+			}
+			pol := policy.MustConstruct(cons)
+			data := c11HugeData(cs.N)
+			ctx.States(1)
+			ctx.Nontrivial(1)
+			got, _ := pol.Match(data)
+			gotP, _ := pol.PartialMatch(data)
+			ctx.Eval(2)
+			ctx.Trans(1)
+			ctx.Outcome(fmt.Sprint(got))
+			if got != s.want || gotP != s.want {
+				ctx.Failf(cs, "atom-truth/huge-list", "%s on the list 0 .. %d: Match %v, PartialMatch %v, expected %v", s.name, cs.N-1, got, gotP, s.want)
 			}
 		},
 	}
